@@ -1,7 +1,7 @@
 """C01 - every server message is delivered once, in order, byte-exact."""
 from .. import sessprop
 
-KINDS = {'cfg', 'srv', 'rd', 'ev'}
+KINDS = {'cfg', 'srv', 'rd', 'ev', 'call'}
 PLAIN = {"poll": 5, "ping_rate": 0, "ping_timeout": 0, "close_timeout": 0, "auto_pong": True}
 
 
@@ -9,6 +9,10 @@ def instances(tier):
     q = tier == 'quick'
     out = [{"label": "conforming-server", "cfg": PLAIN,
             "consts": dict(HttpItems='HttpOk', Items='C01Items', Cfg='CfgPlain', MaxItems=3, ChunkMax=2, Conforming=True)}]
+    # the application closes (or sends) at some event: what the server sends afterwards is still delivered, up to its Close
+    out.append({"label": "conforming-server-while-the-application-closes", "cfg": PLAIN,
+                "consts": dict(HttpItems='HttpOk', Items='C01ItemsSmall', Cfg='CfgPlain', MaxItems=2 if q else 3, ChunkMax=2, Conforming=True,
+                               Reacts={"none", "close", "send", "ping"}, ReactAt={"ready", "text", "ping", "binary"}, MaxReacts=1)})
     if not q:
         out.append({"label": "conforming-server-deep-simulation", "cfg": PLAIN, "simulate": "num=30000", "depth": 300,
                     "consts": dict(HttpItems='HttpOk', Items='C01Items', Cfg='CfgPlain', MaxItems=8, ChunkMax=4, Conforming=True)})
